@@ -1,5 +1,5 @@
 (* Executable entry points of the C07 model for the harness. *)
-From Verif Require Import Core.Syntax Core.Eval Print.Model.
+From Verif Require Import Core.Syntax Core.Eval Print.Model Print.Impl.
 From Coq Require Import List.
 Import ListNotations.
 
@@ -13,3 +13,4 @@ Definition c07_nf_ok := nf_ok.
 Definition c07_nf_concrete := nf_concrete.
 Definition c07_print := print_nf.
 Definition c07_range_rewrite := range_rewrite.
+Definition c07_impl_def := impl_def.
